@@ -103,6 +103,23 @@ def cases(tier, rng):
                 ops += ["send 616e73", "wire a"]
                 out.append("w%d sock REP / %s" % (k, " / ".join(ops)))
                 k += 1
+    # a recv is polled and abandoned; then a connection under the SAME identity as a still registered one arrives and sends:
+    # the socket is as usable as if the abandoned call had never been made - the new connection's messages come out
+    for t in ("PULL", "SUB", "DEALER", "ROUTER", "REP", "XPUB"):
+        pt = scen.PEER[t]
+        body = [b"", b"late"] if t == "REP" else [b"\x01late"] if t == "XPUB" else [b"late"]
+        for polls in (1, 2, 3):
+            for idl in (1, 16):
+                for early in (False, True):
+                    ident = W.tok(b"K" * idl)
+                    ops = ["attach a %s id=%s" % (pt, ident)]
+                    if early:       # the first connection has delivered something before
+                        ops += ["feed a " + W.tok(W.msg([b"", b"first"] if t == "REP" else [b"\x01first"] if t == "XPUB" else [b"first"])), "recv"]
+                        if t == "REP":
+                            ops += ["send 6f6b"]
+                    ops += ["recvp %d" % polls, "attach b %s id=%s" % (pt, ident), "feed b " + W.tok(W.msg(body)), "recv"]
+                    out.append("k%d sock %s / %s" % (k, t, " / ".join(ops)))
+                    k += 1
     for t in TYPES:
         for _ in range(120 if tier == "quick" else 2500):
             line = scen.scenario(rng, t, allow_eof=False)
@@ -128,6 +145,12 @@ def judge(line, obs, orc):
     kind = line.split()[0][0]
     if "r=lost-wakeup" in obs:
         return "a recv parked after an abandoned recv was never woken although the bytes of a complete message had arrived (socket unusable for a task awaiting it)"
+    if kind == "k":
+        last = [tk for op, tk in po if op[0] == "recv"][-1]
+        if not (last.startswith("r=ok:") and last.endswith("6c617465")):
+            return ("after an abandoned recv, the message of a connection that took over the identity of a still registered "
+                    "connection was not returned: " + str(last)[:80])
+        return None
     if kind == "b":
         got = [tk.split("=ok:", 1)[1] for op, tk in po if op[0] in ("recv", "recvp") and tk and "=ok:" in tk]
         got = [g.split(";")[-1][:4] for g in got]
@@ -190,7 +213,7 @@ def judge(line, obs, orc):
 
 
 def compare_filter(line):
-    return not line.startswith("b")      # (large payloads: the extracted model is quadratic in the stream length)
+    return not line.startswith(("b", "k"))      # (large payloads: the extracted model is quadratic in the stream length)
 
 
 def model_cases(case_lines):
